@@ -123,6 +123,14 @@ pub fn take_plain() -> Vec<String> {
     CUR.with(|c| std::mem::take(&mut *c.borrow_mut()))
 }
 
+/// Fresh log state for the calling thread without touching the process-wide drop-token counters.
+pub fn reset_log_keep_tokens() {
+    CUR.with(|c| c.borrow_mut().clear());
+    DONE.with(|d| d.borrow_mut().clear());
+    DONE_SCHED.with(|d| d.borrow_mut().clear());
+    OPEN.with(|o| *o.borrow_mut() = false);
+}
+
 pub fn reset_log() {
     tok_reset();
     CUR.with(|c| c.borrow_mut().clear());
